@@ -1642,11 +1642,15 @@ def m_edge_weight(I, state, frame, bi, t, args, span):
                         yield x
                 else:
                     yield r
+        # (a key that went through a local collection has lost its binding but remembers which one it was)
+        def syms_of(k_):
+            return (set([k_[1]]) | set(r_[1] for r_ in k_[2] if isinstance(r_, tuple) and r_[0] == "was")) - {None}
+        sa_, sb_ = syms_of(a), syms_of(b)
         for r in unvia(a[2]):
-            if isinstance(r, tuple) and r[0] == "nbr" and r[1] == b[1] and r[2] == "Incoming" and b[1] is not None:
+            if isinstance(r, tuple) and r[0] == "nbr" and r[1] in sb_ and r[2] == "Incoming":
                 certain = True
         for r in unvia(b[2]):
-            if isinstance(r, tuple) and r[0] == "nbr" and r[1] == a[1] and r[2] == "Outgoing" and a[1] is not None:
+            if isinstance(r, tuple) and r[0] == "nbr" and r[1] in sa_ and r[2] == "Outgoing":
                 certain = True
         if "edge_b" in role_tags(b) and "edge_a" in role_tags(a):
             certain = True
